@@ -903,7 +903,9 @@ def build_class(world, modname, cs):
             d['layer'] = get_layer(world, cs['layer'])
     if cs.get('level') is not None:
         d['level'] = cs['level']
-    for hook, beh in sorted((cs.get('fixture') or {}).items()):
+    fx = dict(cs.get('fixture') or {})
+    fx.update((world.plan.get('units') or {}).get(cs['name']) or {})
+    for hook, beh in sorted(fx.items()):
         d[hook] = _class_fixture(hook, beh)
     cls = type(cs['name'], (unittest.TestCase,), d)
     if cs.get('class_skip'):
@@ -917,7 +919,7 @@ def _class_fixture(hook, beh):
     runner itself calls every test case on its own."""
     def fn(cls):
         emit('class.' + hook, cls='%s.%s' % (cls.__module__, cls.__name__),
-             out_is_orig=(sys.stdout is ORIG_STDOUT)
+             beh=beh, out_is_orig=(sys.stdout is ORIG_STDOUT)
              if ORIG_STDOUT is not None else None,
              err_is_orig=(sys.stderr is ORIG_STDERR)
              if ORIG_STDERR is not None else None)
@@ -939,13 +941,17 @@ class UnitEntry:
 
     def __init__(self, cls):
         self._cls = cls
-        self._suite = unittest.TestLoader().loadTestsFromTestCase(cls)
+
+    def _load(self):
+        # (a stdlib suite empties itself while it runs: a fresh one for
+        # every --repeat iteration)
+        return unittest.TestLoader().loadTestsFromTestCase(self._cls)
 
     def countTestCases(self):
-        return self._suite.countTestCases()
+        return self._load().countTestCases()
 
     def __call__(self, result):
-        return self._suite.run(result)
+        return self._load().run(result)
 
     run = __call__
 
